@@ -14,9 +14,10 @@ from . import core
 
 
 class PathRec:
-    __slots__ = ('cons', 'outs', 'trace', 'keep')
+    __slots__ = ('cons', 'outs', 'trace', 'keep', 'defs')
 
-    def __init__(self, cons, outs, trace=None, keep=()):
+    def __init__(self, cons, outs, trace=None, keep=(), defs=()):
+        self.defs = list(defs)   # defining equations of named terms (subset of cons)
         self.keep = list(keep)   # constraints never dropped by weakening (definedness: den != 0)
         self.cons = cons     # list of z3 Bool: defined + side + pc + defs (NOT the input-range assumptions)
         self.outs = outs     # dict name -> z3 term
@@ -48,7 +49,7 @@ def group_weak(paths, keys):
 
 def record(ctx, outs):
     cons = list(ctx.defined) + list(ctx.side) + list(ctx.pc) + list(ctx.defs)
-    return PathRec(cons, {k: core.lift(v) for k, v in outs.items()}, keep=list(ctx.defined))
+    return PathRec(cons, {k: core.lift(v) for k, v in outs.items()}, keep=list(ctx.defined), defs=list(ctx.defs))
 
 
 def group(paths, keys):
